@@ -109,16 +109,39 @@ def check_fresh_labels(ck: Checker, rule, modules):
     """Labels of gates created by add_gate/emplace_gate come from a fresh-label generator, a caller-supplied
     result label, or are the checked constructors' business (they refuse existing labels: C02.VALID)."""
     repo = ck.repo
+    from .interp import Host, Interp, InterpRaise, RepoFunc
+    from .rewrites import FakeCircuit
+    from .tables import Denotations, GateTypeVal, gate_overrides
+    den = Denotations(repo)
+    ov = gate_overrides(den)
+    types = {t.var: t for t in ov.values() if isinstance(t, GateTypeVal)}
+
+    class _Draw(Host):
+        def __init__(self, token):
+            self.hex = token
     um = repo.mod(ARITH + '._utils')
-    f = um.func('generate_random_label')
-    wl = [n for n in ast.walk(f) if isinstance(n, ast.While)]
-    ok = len(wl) == 1 and norm(wl[0].test) == f'{f.args.args[0].arg}.has_gate(_name)' and isinstance(f.body[-1], ast.Return) and norm(f.body[-1].value) == '_name'
-    ck.check(ok, rule, um, f, 'generate_random_label returns a label the circuit does not have yet', 'loop `while circuit.has_gate(_name)` missing', construct='generate_random_label freshness loop')
     gm = repo.mod(GENPKG + '.generation')
-    f = gm.func('_get_new_label')
-    wl = [n for n in ast.walk(f) if isinstance(n, ast.While)]
-    ok = len(wl) == 1 and norm(wl[0].test) == 'circuit.has_gate(ans) or ans in other_restrictions'
-    ck.check(ok, rule, gm, f, '_get_new_label returns a label absent from the circuit and from the reserved labels', 'freshness loop changed', construct='_get_new_label freshness loop')
+    for m, fname, kwargs in ((um, 'generate_random_label', {}), (gm, '_get_new_label', {'other_restrictions': ['new_r1', 'new_r2']}), (gm, '_get_new_labels', {'other_restrictions': ['new_r1']})):
+        f = m.func(fname)
+        # the random source first proposes labels that are taken (by the circuit, by the reserved list), then free ones
+        draws = iter(['t1', 't2', 'r1', 't1', 'r2', 'f1', 't2', 'f1', 'f2', 'f3', 'f4'])
+        it = Interp(repo, overrides=dict(ov), max_steps=200_000)
+        it.allow_while = True
+        it.externals['uuid.uuid4'] = lambda: _Draw(next(draws))
+        c = FakeCircuit(types['INPUT'])
+        for l in ('new_t1', 'new_t2', 'x'):
+            c.emplace_gate(l, types['INPUT'])
+        try:
+            if fname == '_get_new_labels':
+                got = list(RepoFunc(it, m, f)(c, 3, **kwargs))
+            else:
+                got = [RepoFunc(it, m, f)(c, **kwargs)]
+            taken = set(c._gates) | set(kwargs.get('other_restrictions', []))
+            ok = all(g not in taken for g in got) and len(set(got)) == len(got)
+            why = f'returned {got} with the circuit holding {sorted(c._gates)} and {kwargs.get("other_restrictions", [])} reserved'
+        except (InterpRaise, StopIteration) as e:
+            ok, why = False, f'raises {getattr(e, "exc_name", type(e).__name__)}'
+        ck.check(ok, rule, m, f, f'{fname} (folded with a random source that first proposes taken labels) returns labels absent from the circuit, from the reserved labels and from each other', why, construct=f'{fname} freshness')
 
 
 def check_args(ck: Checker, eff: Effects, rule, modules):
@@ -126,6 +149,10 @@ def check_args(ck: Checker, eff: Effects, rule, modules):
     n = 0
     for key, fi in eff.funcs.items():
         if fi.mod.name not in modules or fi.cls is not None:
+            continue
+        if fi.qual.split('.')[-1].startswith('_'):
+            # a private helper may work in place on what its caller hands it; if a public function hands it one of its own
+            # arguments, the effect summary of that public function shows it
             continue
         for p in fi.params:
             if p == 'circuit':
